@@ -13,7 +13,7 @@ import (
 
 func init() {
 	register("C10", propMeta{
-		Explanation:  "Decides which data each deletion site can delete and that decode failures surface: (R1) who-may-delete table: the BlobStore.Remove / Registry.Remove call sites of package common are exactly the seven known deletion functions, and each deletion function is called only from its justified callers (live rollback, post-commit cleanup, dead-transaction log replay); (R2) deletions of data a committed state may reference happen only behind the commit point: in phase2Commit the cleanup is unreachable from the failure edge of the all-or-nothing registry update, and the log replay re-runs deleteObsoleteEntries / deleteTrackedItemsValues only when the dead transaction's last logged step shows it had passed the commit point; (R3) the node blobs declared obsolete after a commit are the post-flip INACTIVE ids of the updated handles and the ACTIVE ids (plus logical ids) of the removed handles, taken from the slices returned by activateInactiveNodes / touchNodes; (R4) value blobs: itemActionTracker.manage queues the old value id for deletion only on the path on which the item is re-keyed with a fresh id before its new value is written, so the live id is never queued; the deletion queue is reset only by getForRollbackTrackedItemsValues, which phase1Commit invokes in every attempt before (re)staging values - the ids queued by an abandoned attempt or by the merge replay are thereby dropped before they can reach cleanup; (R6) the undo functions that cannot tell own from foreign state run only under a strict guard that implies the step succeeded for this transaction (shared with C37.R4); (R5) decode failures on the read path are reported, not swallowed: every Unmarshal reachable in nodeRepositoryBackend.get and itemActionTracker.Get has its error returned.",
+		Explanation:  "Decides which data each deletion site can delete and that decode failures surface: (R1) who-may-delete table: the BlobStore.Remove / Registry.Remove call sites of package common are exactly the seven known deletion functions, and each deletion function is called only from its justified callers (live rollback, post-commit cleanup, dead-transaction log replay); (R2) deletions of data a committed state may reference happen only behind the commit point: in phase2Commit the cleanup is unreachable from the failure edge of the all-or-nothing registry update, and the log replay re-runs deleteObsoleteEntries / deleteTrackedItemsValues only when the dead transaction's last logged step shows it had passed the commit point; (R3) the node blobs declared obsolete after a commit are the post-flip INACTIVE ids of the updated handles and the ACTIVE ids (plus logical ids) of the removed handles, taken from the slices returned by activateInactiveNodes / touchNodes; (R4) value blobs: itemActionTracker.manage queues the old value id for deletion only on the path on which the item is re-keyed with a fresh id before its new value is written, so the live id is never queued; the deletion queue is reset only by getForRollbackTrackedItemsValues, which phase1Commit invokes in every attempt before (re)staging values - the ids queued by an abandoned attempt or by the merge replay are thereby dropped before they can reach cleanup; (R6) the undo functions that cannot tell own from foreign state run only under a strict guard that implies the step succeeded for this transaction (shared with C37.R4); (R5) decode failures on the read path are reported, not swallowed: every Unmarshal reachable in nodeRepositoryBackend.get and itemActionTracker.Get has its error returned. (R7) the priority log is removed before the commit's obsolete blobs are deleted (phase2Commit and cleanup).",
 		DoesNotCover: "That every id a deletion function receives at run time is unreferenced (a property of histories) is not decided; crash points are not enumerated (C08).",
 	}, runC10)
 	register("C11", propMeta{
@@ -300,6 +300,84 @@ func runC10(c *Ctx) {
 
 	r6 := c.Rule("R6", "undo functions that delete or clear whatever the registry / blob store holds under a node id (rollbackUpdatedNodes, rollbackRemovedNodes, rollbackNewRootNodes) run only in a state that implies the step succeeded for THIS transaction (shared with C37.R4): otherwise the loser of a conflict deletes the winner's committed data", 6)
 	foreignBlindUndoRule(c, r6)
+
+	r7 := c.Rule("R7", "a surviving priority log means `undo this transaction's flip`, so it is removed before the commit's obsolete (pre-commit) blobs are deleted: in phase2Commit and in cleanup every call that reaches deleteObsoleteEntries is preceded by one that reaches PriorityLog.Remove", 2)
+	{
+		reachDel := w.callsReaching(kTxDelObsolete)
+		reachRm := w.callsReaching(kPLogRemove)
+		n := 0
+		for _, k := range []string{kTxp2, "common.Transaction.cleanup"} {
+			f := w.Fn(k)
+			g := w.G(f)
+			c.Analysed(f)
+			dels := g.Find(func(x *GNode) bool { return reachDel(x) || calls(kTxDelObsolete)(x) })
+			if len(dels) == 0 {
+				continue
+			}
+			n++
+			// a node that reaches both (t.cleanup) is judged inside the callee
+			var strict []*GNode
+			for _, d := range dels {
+				if !(reachRm(d) || calls(kPLogRemove)(d)) {
+					strict = append(strict, d)
+				}
+			}
+			var offs []Offence
+			if false && len(strict) > 0 && k == kTxp2 { // covered by the dedicated phase2Commit obligation below (with the no-handles exemption)
+				offs = g.MustPrecede(func(x *GNode) bool { return reachRm(x) || calls(kPLogRemove)(x) }, func(x *GNode) bool {
+					for _, d := range strict {
+						if x == d {
+							return true
+						}
+					}
+					return false
+				})
+			}
+			// inside a function that itself removes the priority log and deletes: order matters there too
+			if k != kTxp2 {
+				if rms := g.Find(calls(kPLogRemove)); len(rms) > 0 {
+					offs = append(offs, g.MustPrecede(calls(kPLogRemove), func(x *GNode) bool { return calls(kTxDelObsolete)(x) || reachDel(x) })...)
+				} else if len(g.Find(calls(kTxDelObsolete))) > 0 {
+					// the callee deletes but does not remove the log: its callers must have removed it (checked for phase2Commit above)
+					_ = rms
+				}
+			}
+			c.Offences(g, offs, r7, shortKey(k)+": obsolete entries are deleted only after the priority log was removed", f.Decl.Pos(), "PriorityLog().Remove precedes deleteObsoleteEntries",
+				"the pre-commit blobs can be deleted while the priority log still exists: a crash in between makes recovery restore the pre-flip handles (the log says `undo`), whose active ids then name blobs that are already gone - the committed tree no longer loads")
+		}
+		c.Check(n >= 1, r7, "deletion sites of obsolete entries inventoried", token.NoPos, fmt.Sprintf("%d function(s)", n), "none found", nil)
+		// phase2Commit: its cleanup call is preceded by the priority log removal
+		f2 := w.Fn(kTxp2)
+		g2 := w.G(f2)
+		// no priority log exists when neither updated nor removed handles exist: the path on which both length
+		// tests are false is exempt (cut at the false edge of the last of those tests)
+		info2 := f2.Pkg.TypesInfo
+		updF, remF := w.Field("common", "Transaction", "updatedNodeHandles"), w.Field("common", "Transaction", "removedNodeHandles")
+		emptyTests := g2.condNodes(func(e ast.Expr) bool {
+			hit := false
+			ast.Inspect(e, func(x ast.Node) bool {
+				if sx, ok := x.(ast.Expr); ok {
+					if fv := fieldOfSelector(info2, sx); fv == remF {
+						hit = true
+					}
+				}
+				return !hit
+			})
+			return hit
+		})
+		_ = updF
+		isRm := func(x *GNode) bool {
+			return (reachRm(x) || calls(kPLogRemove)(x)) && !calls("common.Transaction.cleanup")(x)
+		}
+		r := g2.Reach([]int{g2.Entry}, isRm, edgeCut(emptyTests, 2))
+		var offs []Offence
+		for _, x := range g2.Find(calls("common.Transaction.cleanup")) {
+			if r.Seen[x.ID] {
+				offs = append(offs, Offence{x, r.Path(x.ID)})
+			}
+		}
+		c.Offences(g2, offs, r7, "phase2Commit: the priority log is removed before cleanup starts deleting", f2.Decl.Pos(), "a PriorityLog().Remove task precedes t.cleanup (unless no handle was updated or removed)", "cleanup can start deleting obsolete blobs while the priority log of this transaction still exists")
+	}
 
 	r5 := c.Rule("R5", "decode failures on the read path are returned", 2)
 	decodeErrorsRule(c, r5)
